@@ -308,6 +308,9 @@ func GenReaderCase(t *rapid.T, maxLines int, stalls bool) Case {
 			in.SleepsUs = append(in.SleepsUs, rapid.SampledFrom([]int{0, 0, 10, 100}).Draw(t, "sleep"))
 		}
 	}
+	if len(in.Content) > 0 && rapid.IntRange(0, 5).Draw(t, "failWithData") == 0 {
+		in.FailWithData = true
+	}
 	c.Inputs = []Input{in}
 	c.Matcher, c.Extract = GenMatcher(t)
 	if rapid.Bool().Draw(t, "hasIgnore") {
